@@ -594,6 +594,10 @@ def lean_folded_primitive(r, users):
         out.append('theorem prim_binarize_computes {n : Nat} (o : Bct.CoreIR.Util.Oracles) (W : AMat Rat n) (c : Bool) (ds : List Nat) :\n'
                    '    Bct.CoreIR.Util.runFn o prim_binarize [.mat (Bct.Cores.Util.embQ W), .sc (.bool c)] ds = .mat (Bct.Cores.Util.embQ (Bct.Thresh.binarize W)) :=\n'
                    '  Bct.Cores.Util.link_binarize o _ prim_binarize_ok rfl W c ds\n')
+    if r.name == 'invert':
+        out.append('theorem prim_invert_computes {n : Nat} (o : Bct.CoreIR.Util.Oracles) (W : AMat Rat n) (c : Bool) (ds : List Nat) :\n'
+                   '    Bct.CoreIR.Util.runFn o prim_invert [.mat (Bct.Cores.Util.embQ W), .sc (.bool c)] ds = .mat (Bct.Cores.Util.embQ (Bct.Thresh.invert W)) :=\n'
+                   '  Bct.Cores.Util.link_invert o _ prim_invert_ok rfl W c ds\n')
     if r.name == 'cuberoot':
         out.append('theorem prim_cuberoot_computes {n : Nat} (o : Bct.CoreIR.Util.Oracles) (x : Rat) (ds : List Nat) :\n'
                    '    Bct.CoreIR.Util.runFn (n := n) o prim_cuberoot [.sc (.rat x)] ds =\n'
@@ -2825,6 +2829,12 @@ class DijkX:
                 # M[r, ix] = src
                 if isinstance(v, ast.Name):
                     return '.storeRow %s %s %s %s' % (q(tt[0]), q(tt[1]), q(tt[2]), q(v.id))
+                # M[r, ix] = np.min(td, axis=0): the right-hand side is evaluated first, into a temporary whose name is its own source
+                # text (not an identifier, so it cannot clash with a variable of the routine)
+                a = np_call(v, 'min', 1)
+                if a and len(v.keywords) == 1 and const_nat(kw(v, 'axis')) == 0 and isinstance(a[0], ast.Name):
+                    tmp = ast.unparse(v)
+                    return '.minAxis0 %s %s, .storeRow %s %s %s %s' % (q(tmp), q(a[0].id), q(tt[0]), q(tt[1]), q(tt[2]), q(tmp))
                 # M[r, ix] = M2[r2, c2] + lit
                 if isinstance(v, ast.BinOp) and isinstance(v.op, ast.Add) and const_nat(v.right) is not None:
                     s2 = self.sub2(v.left)
@@ -4842,9 +4852,139 @@ def extract_clust_bu(fn, path):
     return r
 
 
-def lean_clust(rs, bu, path, prim):
+def extract_sign(fn, path):
+    """clustering_coef_wu_sign: whole body (Model/CoreIRSign.lean: SignIR) — three statements, then the `if / elif / elif` chain"""
+    X = _TX
+    r = Routine(fn.name, path)
+    r.line = fn.lineno
+    a = fn.args
+    if a.vararg or a.kwarg or a.kwonlyargs or getattr(a, 'posonlyargs', []):
+        r.bad(fn, 'unexpected parameter kinds')
+    f = {'name': q(fn.name), 'params': lst(q(x.arg) for x in a.args), 'defaults': lean_defaults(defaults_of(fn)), 'dim': q('?'), 'dimOf': q('?'),
+         'cpT': q('?'), 'cpOf': q('?'), 'fdM': q('?'), 'fdV': '99', 'tested': '[]', 'branches': '[]'}
+    r.fields = f
+    body = body_wo_doc(fn)
+    r.parts = {'body': lines_of(body)}
+    r.counts = {'body': len(body)}
+    cx = ClustX()
+
+    def at2(node, what):
+        if isinstance(node, ast.Subscript) and isinstance(node.slice, ast.Tuple) and len(node.slice.elts) == 2:
+            return X.nm(node.value, 'matrix'), X.nm(node.slice.elts[0], 'index'), X.nm(node.slice.elts[1], 'index')
+        raise Unrec(node, 'expected `%s`' % what)
+
+    def factors(node):
+        """a * b * c (left-nested) -> [a, b, c]"""
+        if isinstance(node, ast.BinOp) and isinstance(node.op, ast.Mult):
+            return factors(node.left) + [node.right]
+        return [node]
+
+    def acc(st):
+        w = 'cyc3[i] += W[j, i] * W[i, q] * W[j, q]'
+        if not (isinstance(st, ast.AugAssign) and isinstance(st.op, ast.Add) and isinstance(st.target, ast.Subscript)):
+            raise Unrec(st, 'expected an accumulation `%s`, found %s' % (w, src_of(st)))
+        v, ab = st.value, 'false'
+        c = np_call(v, 'abs', 1)
+        if c and not v.keywords:
+            v, ab = c[0], 'true'
+        fs = ['(%s, %s, %s)' % at2(x, w) for x in factors(v)]
+        return '{ t := %s, ti := %s, factors := %s, abs := %s }' % (X.nm(st.target.value, 'accumulator'), X.nm(st.target.slice, 'node'), lst(fs), ab)
+
+    def rng(st, what):
+        it = st.iter if isinstance(st, ast.For) else None
+        if not (it is not None and not st.orelse and isinstance(it, ast.Call) and isinstance(it.func, ast.Name) and it.func.id == 'range'
+                and len(it.args) == 1 and not it.keywords):
+            raise Unrec(st, 'expected `%s`' % what)
+        return X.nm(st.target, 'loop variable'), X.nm(it.args[0], 'bound')
+
+    def item(st):
+        # W_pos = W * (W > 0)   /   W_neg = -W * (W < 0)
+        if isinstance(st, ast.Assign) and len(st.targets) == 1 and isinstance(st.value, ast.BinOp) and isinstance(st.value.op, ast.Mult) \
+                and isinstance(st.value.right, ast.Compare):
+            l, c = st.value.left, st.value.right
+            neg = isinstance(l, ast.UnaryOp) and isinstance(l.op, ast.USub)
+            wn = l.operand if neg else l
+            if not (len(c.ops) == 1 and isinstance(c.ops[0], ast.Lt if neg else ast.Gt)):
+                raise Unrec(st, 'expected `W_pos = W * (W > 0)` or `W_neg = -W * (W < 0)`, found %s' % src_of(st))
+            return '.part { t := %s, neg := %s, w := %s, c := %s, lit := %s }' % (
+                X.nm(st.targets[0], 'target'), 'true' if neg else 'false', X.nm(wn, 'matrix'), X.nm(c.left, 'matrix'), X.nat(c.comparators[0], 'bound'))
+        # cyc3 = np.zeros((n,))
+        if isinstance(st, ast.Assign) and len(st.targets) == 1 and np_call(st.value, 'zeros', 1):
+            z = st.value.args[0]
+            if st.value.keywords or not (isinstance(z, ast.Tuple) and len(z.elts) == 1):
+                raise Unrec(st, 'expected `cyc3 = np.zeros((n,))`')
+            return '.zeros %s %s' % (X.nm(st.targets[0], 'target'), X.nm(z.elts[0], 'length'))
+        if isinstance(st, ast.For):
+            i, iN = rng(st, 'for i in range(n):')
+            if len(st.body) != 1:
+                raise Unrec(st, 'expected exactly one nested loop in `for i in range(n):`')
+            j, jN = rng(st.body[0], 'for j in range(n):')
+            if len(st.body[0].body) != 1:
+                raise Unrec(st.body[0], 'expected exactly one nested loop in `for j in range(n):`')
+            lq = st.body[0].body[0]
+            q_, qN = rng(lq, 'for q in range(n):')
+            if not (lq.body and isinstance(lq.body[-1], ast.If)):
+                raise Unrec(lq, 'expected the accumulations and a final `if j != q:` in the innermost loop')
+            iff = lq.body[-1]
+            if not (not iff.orelse and isinstance(iff.test, ast.Compare) and len(iff.test.ops) == 1 and isinstance(iff.test.ops[0], ast.NotEq)):
+                raise Unrec(iff, 'expected `if j != q:` without `else`')
+            return ('.loop { i := %s, iN := %s, j := %s, jN := %s, q := %s, qN := %s, always := %s, cL := %s, cR := %s, guarded := %s }'
+                    % (i, iN, j, jN, q_, qN, lst(acc(x) for x in lq.body[:-1]), X.nm(iff.test.left, 'left side'),
+                       X.nm(iff.test.comparators[0], 'right side'), lst(acc(x) for x in iff.body)))
+        return '.arr (%s)' % cx.stmt(st)
+    try:
+        if len(body) != 4:
+            raise Unrec(fn, 'expected exactly 4 statements (`n = len(W)`, `W = W.copy()`, `np.fill_diagonal(W, 0)`, the `if` chain), found %d' % len(body))
+        w = 'n = len(W)'
+        t, v = X.assign(body[0], w)
+        f['dim'], f['dimOf'] = X.nm(t, 'target'), X.nm(X.len1(v, w), 'matrix')
+        w = 'W = W.copy()'
+        t, v = X.assign(body[1], w)
+        if not (isinstance(v, ast.Call) and isinstance(v.func, ast.Attribute) and v.func.attr == 'copy' and not v.args and not v.keywords):
+            raise Unrec(body[1], 'expected `%s`' % w)
+        f['cpT'], f['cpOf'] = X.nm(t, 'target'), X.nm(v.func.value, 'matrix')
+        w = 'np.fill_diagonal(W, 0)'
+        c = np_call(body[2].value, 'fill_diagonal', 2) if isinstance(body[2], ast.Expr) else None
+        if not c or body[2].value.keywords:
+            raise Unrec(body[2], 'expected `%s`' % w)
+        f['fdM'], f['fdV'] = X.nm(c[0], 'matrix'), X.nat(c[1], 'value')
+        tested, branches = [], []
+        node = body[3]
+        while True:
+            if not isinstance(node, ast.If):
+                raise Unrec(node, 'expected `if coef_type == …:` / `elif coef_type in (…):`')
+            tst = node.test
+            if not (isinstance(tst, ast.Compare) and len(tst.ops) == 1):
+                raise Unrec(node, 'expected `coef_type == \'default\'` or `coef_type in (…)`')
+            if isinstance(tst.ops[0], ast.Eq):
+                keys, is_in = [X.strlit(tst.comparators[0], 'branch key')], 'false'
+            elif isinstance(tst.ops[0], ast.In) and isinstance(tst.comparators[0], (ast.Tuple, ast.List)):
+                keys, is_in = [X.strlit(x, 'branch key') for x in tst.comparators[0].elts], 'true'
+            else:
+                raise Unrec(node, 'expected `coef_type == \'default\'` or `coef_type in (…)`')
+            tested.append(X.nm(tst.left, 'tested name'))
+            if not (node.body and isinstance(node.body[-1], ast.Return) and node.body[-1].value is not None):
+                raise Unrec(node, 'expected the branch to end with `return …`')
+            rv = node.body[-1].value
+            rets = [X.nm(x, 'returned value') for x in (rv.elts if isinstance(rv, ast.Tuple) else [rv])]
+            branches.append('{ keys := %s, isIn := %s, body := [%s], ret := %s }'
+                            % (lst(keys), is_in, ',\n        '.join(item(x) for x in node.body[:-1]), lst(rets)))
+            if not node.orelse:
+                break
+            if len(node.orelse) != 1:
+                raise Unrec(node, 'expected `elif` (one nested `if`) or nothing after the branch')
+            node = node.orelse[0]
+        f['tested'] = lst(tested)
+        f['branches'] = '[' + ',\n    '.join(branches) + ']'
+    except Unrec as e:
+        r.bad(e.node if hasattr(e.node, 'lineno') else fn, e.msg)
+    return r
+
+
+def lean_clust(rs, bu, path, prim, sg=None):
     relb = os.path.basename(path)
     out = ['import BctVerif.Props.CoresClust',
+           'import BctVerif.Props.CoresSign',
            'import BctVerif.Props.CoresUtil',
            '/-!',
            '# GENERATED by translate/cores.py (family clust) — do not edit.  Re-emitted from the current source on every check run.',
@@ -4881,6 +5021,35 @@ def lean_clust(rs, bu, path, prim):
                % (relb, a, b, 'were not all recognised by translate/cores.py' if bu.problems else 'are not the expected program'))
     out.append('theorem clustering_coef_bu_computes {n : Nat} (G : AMat Rat n) :\n    runBu ir_clustering_coef_bu (embA G) = some ((ccBu G).map optV) :=\n'
                '  link_cc_bu _ clustering_coef_bu_ok G\n')
+    if sg is not None:
+        fs = sg.fields or {'name': q('clustering_coef_wu_sign'), 'params': '[]', 'defaults': '[]', 'dim': q('?'), 'dimOf': q('?'), 'cpT': q('?'),
+                           'cpOf': q('?'), 'fdM': q('?'), 'fdV': '99', 'tested': '[]', 'branches': '[]'}
+        a, b = sg.parts.get('body', (sg.line, sg.line))
+        for p in sg.problems:
+            out.append('-- NOT RECOGNISED: ' + p.replace('\n', ' '))
+        out.append('/-- `clustering_coef_wu_sign` (%s:%d): the whole body, all three branches -/' % (relb, sg.line))
+        out.append('def ir_clustering_coef_wu_sign : Bct.CoreIR.Sign.SignIR :=\n  { recognised := %s, origins := %s,\n    %s }\n'
+                   % ('true' if not sg.problems else 'false', lean_origins(sg),
+                      ',\n    '.join('%s := %s' % (k, fs[k]) for k in ('name', 'params', 'defaults', 'dim', 'dimOf', 'cpT', 'cpOf', 'fdM', 'fdV', 'tested', 'branches'))))
+        out.append('theorem clustering_coef_wu_sign_ok : Bct.CoreIR.Sign.signOk ir_clustering_coef_wu_sign = true := by\n  first | decide | fail '
+                   '"clustering_coef_wu_sign_ok: the statements extracted from clustering_coef_wu_sign (%s:%d-%d) %s"\n'
+                   % (relb, a, b, 'were not all recognised by translate/cores.py' if sg.problems else 'are not the expected program'))
+        out.append('theorem clustering_coef_wu_sign_default_computes {n : Nat} (cb : Rat → Rat) (W : AMat Rat n) :\n'
+                   '    Bct.CoreIR.Sign.runSign cb ir_clustering_coef_wu_sign (embA W) "default" =\n'
+                   '      some [.vec ((ccSignDefault W (AMat.map cb (posPart (zeroDiag W))) (AMat.map cb (negPart (zeroDiag W)))).1.map optV),\n'
+                   '            .vec ((ccSignDefault W (AMat.map cb (posPart (zeroDiag W))) (AMat.map cb (negPart (zeroDiag W)))).2.map optV)] :=\n'
+                   '  Bct.Cores.Sign.link_sign_default _ clustering_coef_wu_sign_ok cb W\n')
+        out.append('theorem clustering_coef_wu_sign_zhang_computes {n : Nat} (cb : Rat → Rat) (W : AMat Rat n) :\n'
+                   '    Bct.CoreIR.Sign.runSign cb ir_clustering_coef_wu_sign (embA W) "zhang" =\n'
+                   '      some [.vec ((ccSignZhang W).1.map optV), .vec ((ccSignZhang W).2.map optV)] :=\n'
+                   '  Bct.Cores.Sign.link_sign_zhang _ clustering_coef_wu_sign_ok cb W\n')
+        out.append('theorem clustering_coef_wu_sign_costantini_computes {n : Nat} (cb : Rat → Rat) (W : AMat Rat n) :\n'
+                   '    Bct.CoreIR.Sign.runSign cb ir_clustering_coef_wu_sign (embA W) "costantini" = some [.vec ((ccSignCost W).map optV)] :=\n'
+                   '  Bct.Cores.Sign.link_sign_cost _ clustering_coef_wu_sign_ok cb W\n')
+        out.append('theorem clustering_coef_wu_sign_other_computes {n : Nat} (cb : Rat → Rat) (W : AMat Rat n) (t : String)\n'
+                   '    (ht : t ∉ ["default", "zhang", "Zhang", "costantini", "Costantini"]) :\n'
+                   '    Bct.CoreIR.Sign.runSign cb ir_clustering_coef_wu_sign (embA W) t = some [] :=\n'
+                   '  Bct.Cores.Sign.link_sign_other _ clustering_coef_wu_sign_ok cb W t ht\n')
     out.append('end Bct.Gen.CoresClust')
     return '\n'.join(out) + '\n'
 
@@ -4901,11 +5070,12 @@ def family_clust():
         return r
     rs = [one(c[0], extract_clust_arr) for c in CLUST_ARR]
     bu = one('clustering_coef_bu', extract_clust_bu)
+    sg = one('clustering_coef_wu_sign', extract_sign)
     prim = fold_util_primitive(path, 'cuberoot')
-    routines = {r.name: dict(getattr(r, 'counts', {}), line=r.line, recognised=not r.problems) for r in rs + [bu]}
+    routines = {r.name: dict(getattr(r, 'counts', {}), line=r.line, recognised=not r.problems) for r in rs + [bu, sg]}
     routines['cuberoot (called by the weighted routines)'] = dict(line=prim.line, file=rel(prim.file), recognised=not prim.problems)
-    return {'module': 'BctVerif.Gen.CoresClust', 'file': 'CoresClust.lean', 'text': lean_clust(rs, bu, path, prim), 'sources': [path],
-            'routines': routines, 'problems': [p for r in rs + [bu, prim] for p in r.problems]}
+    return {'module': 'BctVerif.Gen.CoresClust', 'file': 'CoresClust.lean', 'text': lean_clust(rs, bu, path, prim, sg), 'sources': [path],
+            'routines': routines, 'problems': [p for r in rs + [bu, sg, prim] for p in r.problems]}
 
 
 # ====================================================================== family 'char'
@@ -5242,12 +5412,139 @@ def extract_loc(fn, path):
     return r
 
 
-def lean_eff(r, path, prim, rl=None):
+WEI_EFF_FIELDS = ['guardT', 'guardKeys', 'guardExc', 'dim', 'dimOf', 'gl', 'glCallee', 'glArg', 'glKw', 'glKwVal', 'adj', 'adjOf', 'adjLit', 'adjDtype', 'tests', 'res', 'callee', 'arg',
+                  'out', 'sumOf', 'den', 'ret']
+DINV_FIELDS = ['f1M', 'f1V', 'invT', 'invNum', 'invOf', 'f2M', 'f2V', 'ret']
+
+
+def extract_dinv(g, path):
+    """the nested distance_inv_wei of efficiency_wei: the Dijkstra part through extract_dijk_whole (DijkIR), then the three statements after
+    the row loop (Model/CoreIRDinv.lean: DinvIR) -> (Routine of the Dijkstra part, {epilogue fields}, [problems])"""
+    X = _TX
+    import copy
+    body = body_wo_doc(g)
+    loops = [i for i, st in enumerate(body) if isinstance(st, ast.For)]
+    f = {'f1M': q('?'), 'f1V': '99', 'invT': q('?'), 'invNum': '99', 'invOf': q('?'), 'f2M': q('?'), 'f2V': '99', 'ret': q('?')}
+    probs = []
+    if len(loops) != 1 or len(body) != loops[0] + 5 or not isinstance(body[-1], ast.Return):
+        rd = Routine(g.name, path); rd.line = g.lineno
+        rd.fields = {'param': q('?'), 'pre': '[]', 'rowVar': q('?'), 'rowBound': q('?'), 'rowPre': '[]', 'whileBody': '[]', 'ret': '[]'}
+        rd.bad(g, 'expected statements, one `for` loop, `np.fill_diagonal(D, 1)`, `D = 1 / D`, `np.fill_diagonal(D, 0)`, `return D`')
+        return rd, f, probs
+    g2 = copy.copy(g)
+    g2.body = body[:loops[0] + 1] + [body[-1]]
+    rd = extract_dijk_whole(g2, path)
+    rd.name = g.name
+    rd.problems = [p_.replace('distance_wei:', g.name + ':', 1) for p_ in rd.problems]
+    e0, e1, e2 = body[loops[0] + 1:loops[0] + 4]
+    try:
+        def fill(st, what):
+            c = np_call(st.value, 'fill_diagonal', 2) if isinstance(st, ast.Expr) else None
+            if not c or st.value.keywords:
+                raise Unrec(st, 'expected `%s`' % what)
+            return X.nm(c[0], 'matrix'), X.nat(c[1], 'value')
+        f['f1M'], f['f1V'] = fill(e0, 'np.fill_diagonal(D, 1)')
+        t, v = X.assign(e1, 'D = 1 / D')
+        nu, de = X.binop(v, ast.Div, 'D = 1 / D')
+        f['invT'], f['invNum'], f['invOf'] = X.nm(t, 'target'), X.nat(nu, 'numerator'), X.nm(de, 'matrix')
+        f['f2M'], f['f2V'] = fill(e2, 'np.fill_diagonal(D, 0)')
+        f['ret'] = X.nm(body[-1].value, 'returned value')
+    except Unrec as e:
+        probs.append('%s: %s:%s: %s' % (g.name, os.path.basename(path), getattr(e.node, 'lineno', '?'), e.msg))
+    return rd, f, probs
+
+
+def extract_wei_eff(fn, path):
+    """efficiency_wei: the nested distance_inv_wei, the statements before the `if` chain, the tests, the last branch (Model/CoreIREffW.lean: WeiIR)"""
+    X = _TX
+    r = Routine(fn.name, path)
+    r.line = fn.lineno
+    a = fn.args
+    if a.vararg or a.kwarg or a.kwonlyargs or getattr(a, 'posonlyargs', []):
+        r.bad(fn, 'unexpected parameter kinds')
+    f = {k: q('?') for k in WEI_EFF_FIELDS}
+    f.update(den='(.lit 0)', adjLit='99', tests='[]', guardKeys='[]', params=lst(q(x.arg) for x in a.args), defaults=lean_defaults(defaults_of(fn)))
+    r.fields = f
+    r.inner = None
+    body = body_wo_doc(fn)
+    r.parts = {'body': lines_of(body)}
+    r.counts = {}
+    try:
+        if (len(body) != 7 or not isinstance(body[0], ast.If) or not isinstance(body[1], ast.FunctionDef) or not isinstance(body[-1], ast.Return)
+                or not isinstance(body[-2], ast.If)):
+            raise Unrec(fn, 'expected the guard on `local`, the nested helper, `n = len(Gw)`, `Gl = invert(Gw, copy=True)`, '
+                            '`A = np.array((Gw != 0), dtype=int)`, the `if` chain, `return E`')
+        gd = body[0]
+        if not (isinstance(gd.test, ast.Compare) and len(gd.test.ops) == 1 and isinstance(gd.test.ops[0], ast.NotIn)
+                and isinstance(gd.test.comparators[0], (ast.Tuple, ast.List)) and not gd.orelse and len(gd.body) == 1 and isinstance(gd.body[0], ast.Raise)
+                and gd.body[0].cause is None and isinstance(gd.body[0].exc, ast.Call) and isinstance(gd.body[0].exc.func, ast.Name)):
+            raise Unrec(gd, 'expected `if local not in (…): raise BCTParamError(…)`')
+        f['guardT'], f['guardKeys'], f['guardExc'] = (X.nm(gd.test.left, 'tested name'), lst(q(ast.unparse(x)) for x in gd.test.comparators[0].elts),
+                                                      q(gd.body[0].exc.func.id))
+        body = body[1:]
+        g = body[0]
+        if g.decorator_list or g.args.vararg or g.args.kwarg or g.args.kwonlyargs or g.args.defaults:
+            r.bad(g, 'unexpected parameter kinds / decorators on the nested function')
+        r.inner = extract_dinv(g, path)
+        for p_ in r.inner[0].problems + r.inner[2]:
+            r.problems.append(p_.replace(g.name + ':', fn.name + ': nested ' + g.name + ':', 1))
+        w = 'n = len(Gw)'
+        t, v = X.assign(body[1], w)
+        f['dim'], f['dimOf'] = X.nm(t, 'target'), X.nm(X.len1(v, w), 'matrix')
+        w = 'Gl = invert(Gw, copy=True)'
+        t, v = X.assign(body[2], w)
+        if not (isinstance(v, ast.Call) and isinstance(v.func, ast.Name) and len(v.args) == 1 and len(v.keywords) == 1 and v.keywords[0].arg is not None):
+            raise Unrec(body[2], 'expected `%s`' % w)
+        f['gl'], f['glCallee'], f['glArg'], f['glKw'], f['glKwVal'] = X.nm(t, 'target'), q(v.func.id), X.nm(v.args[0], 'matrix'), q(v.keywords[0].arg), q(ast.unparse(v.keywords[0].value))
+        w = 'A = np.array((Gw != 0), dtype=int)'
+        t, v = X.assign(body[3], w)
+        c, kw_ = X.np1(v, 'array', w, ('dtype',))
+        if not (isinstance(c, ast.Compare) and len(c.ops) == 1 and isinstance(c.ops[0], ast.NotEq)):
+            raise Unrec(body[3], 'expected `%s`' % w)
+        f['adj'], f['adjOf'], f['adjLit'], f['adjDtype'] = X.nm(t, 'target'), X.nm(c.left, 'matrix'), X.nat(c.comparators[0], 'literal'), X.nm(kw_['dtype'], 'dtype')
+        tests, node, last = [], body[4], None
+        while True:
+            tst = node.test
+            if not (isinstance(tst, ast.Compare) and len(tst.ops) == 1):
+                raise Unrec(node, 'expected `local == …` or `local in (…)`')
+            if isinstance(tst.ops[0], ast.Eq):
+                keys, is_in = [ast.unparse(tst.comparators[0])], 'false'
+            elif isinstance(tst.ops[0], ast.In) and isinstance(tst.comparators[0], (ast.Tuple, ast.List)):
+                keys, is_in = [ast.unparse(x) for x in tst.comparators[0].elts], 'true'
+            else:
+                raise Unrec(node, 'expected `local == …` or `local in (…)`')
+            tests.append('(%s, %s, %s, %d)' % (X.nm(tst.left, 'tested name'), is_in, lst(q(k_) for k_ in keys), len(node.body)))
+            last = node
+            if not node.orelse:
+                break
+            if len(node.orelse) != 1 or not isinstance(node.orelse[0], ast.If):
+                raise Unrec(node, 'expected `elif` (one nested `if`) or nothing after the branch')
+            node = node.orelse[0]
+        f['tests'] = lst(tests)
+        r.counts.update({'branches': len(tests)})
+        if len(last.body) != 2:
+            raise Unrec(last, 'expected two statements in the last branch')
+        e0, e1 = last.body
+        t, v = X.assign(e0, 'e = distance_inv_wei(Gl)')
+        if not (isinstance(v, ast.Call) and isinstance(v.func, ast.Name) and len(v.args) == 1 and not v.keywords):
+            raise Unrec(e0, 'expected `e = distance_inv_wei(Gl)`')
+        f['res'], f['callee'], f['arg'] = X.nm(t, 'target'), q(v.func.id), X.nm(v.args[0], 'argument')
+        t, v = X.assign(e1, 'E = np.sum(e) / (n * n - n)')
+        sm_, de = X.binop(v, ast.Div, 'E = np.sum(e) / (n * n - n)')
+        f['out'], f['sumOf'], f['den'] = X.nm(t, 'target'), X.nm(X.np1(sm_, 'sum', 'E = np.sum(e) / (n * n - n)')[0], 'argument of np.sum'), kex_expr(de)
+        f['ret'] = X.nm(body[-1].value, 'returned value')
+    except Unrec as e:
+        r.bad(e.node if hasattr(e.node, 'lineno') else fn, e.msg)
+    return r
+
+
+def lean_eff(r, path, prim, rl=None, rw=None, prim_inv=None):
     relb = os.path.basename(path)
     f = r.fields
     a, b = r.parts.get('body', (r.line, r.line))
     out = ['import BctVerif.Props.CoresEff',
            'import BctVerif.Props.CoresLoc',
+           'import BctVerif.Props.CoresEffW',
            'import BctVerif.Props.CoresUtil',
            '/-!',
            '# GENERATED by translate/cores.py (family eff) — do not edit.  Re-emitted from the current source on every check run.',
@@ -5289,6 +5586,39 @@ def lean_eff(r, path, prim, rl=None):
         out.append('theorem efficiency_bin_local_computes {n : Nat} (A : AMat Rat n) (u : Fin n) :\n'
                    '    Bct.CoreIR.Loc.runLoc loc_efficiency_bin (fun k => k * k + 2) (embA A) u = Bct.LocalEff.effBinNode A u :=\n'
                    '  Bct.Cores.Loc.link_efficiency_bin_local _ efficiency_bin_local_ok A u\n')
+    if rw is not None:
+        if prim_inv is not None:
+            out += lean_folded_primitive(prim_inv, 'efficiency_wei')
+        fw = rw.fields
+        a3, b3 = rw.parts.get('body', (rw.line, rw.line))
+        for p in rw.problems:
+            out.append('-- NOT RECOGNISED: ' + p.replace('\n', ' '))
+        if rw.inner is not None:
+            rd, fe, _ = rw.inner
+            fd = rd.fields
+            iname = q(rd.name)
+        else:
+            fd = {'param': q('?'), 'pre': '[]', 'rowVar': q('?'), 'rowBound': q('?'), 'rowPre': '[]', 'whileBody': '[]', 'ret': '[]'}
+            fe = {'f1M': q('?'), 'f1V': '99', 'invT': q('?'), 'invNum': '99', 'invOf': q('?'), 'f2M': q('?'), 'f2V': '99', 'ret': q('?')}
+            iname = q('?')
+        out.append('/-- the Dijkstra part of the nested function of `efficiency_wei` -/')
+        out.append('def ir_efficiency_wei_inner_dijk : Bct.CoreIR.Dijk.DijkIR :=\n  { recognised := %s, origins := [],\n    param := %s,\n    pre := %s,\n'
+                   '    rowVar := %s, rowBound := %s,\n    rowPre := %s,\n    whileBody := %s,\n    ret := %s }\n'
+                   % ('true' if not rw.problems else 'false', fd['param'], fd['pre'], fd['rowVar'], fd['rowBound'], fd['rowPre'], fd['whileBody'], fd['ret']))
+        out.append('/-- the nested function of `efficiency_wei` -/')
+        out.append('def ir_efficiency_wei_inner : Bct.CoreIR.Dinv.DinvIR :=\n  { name := %s, dijk := ir_efficiency_wei_inner_dijk, %s }\n'
+                   % (iname, ', '.join('%s := %s' % (k, fe[k]) for k in DINV_FIELDS)))
+        out.append('/-- `efficiency_wei` (%s:%d): nested function, the statements before the `if` chain, the tests, the branch of `local=False` -/' % (relb, rw.line))
+        out.append('def ir_efficiency_wei : Bct.CoreIR.EffW.WeiIR :=\n  { recognised := %s, origins := %s,\n    params := %s, defaults := %s,\n'
+                   '    inner := ir_efficiency_wei_inner,\n    %s }\n'
+                   % ('true' if not rw.problems else 'false', lean_origins(rw), fw['params'], fw['defaults'],
+                      ', '.join('%s := %s' % (k, fw[k]) for k in WEI_EFF_FIELDS)))
+        out.append('theorem efficiency_wei_ok : Bct.CoreIR.EffW.weiOk ir_efficiency_wei = true := by\n  first | decide | fail "efficiency_wei_ok: the statements '
+                   'extracted from efficiency_wei (%s:%d-%d) %s"\n' % (relb, a3, b3, 'were not all recognised by translate/cores.py'
+                                                                         if rw.problems else 'are not the expected program'))
+        out.append('theorem efficiency_wei_computes {n : Nat} (W : AMat Rat n) :\n'
+                   '    Bct.CoreIR.EffW.runWei ir_efficiency_wei (n + 1) (Bct.Cores.Dijk.embG W) = efficiencyWei W :=\n'
+                   '  Bct.Cores.EffW.link_efficiency_wei _ efficiency_wei_ok W\n')
     out.append('end Bct.Gen.CoresEff')
     return '\n'.join(out) + '\n'
 
@@ -5320,11 +5650,26 @@ def family_eff():
             rl.fields = {k: ('99' if k in LOC_NUM else q('?')) for k in LOC_FIELDS}
     else:
         rl = Routine(name, path); rl.fields = {k: ('99' if k in LOC_NUM else q('?')) for k in LOC_FIELDS}
-    return {'module': 'BctVerif.Gen.CoresEff', 'file': 'CoresEff.lean', 'text': lean_eff(r, path, prim, rl), 'sources': [path],
+    wname = 'efficiency_wei'
+    if wname in fns:
+        try:
+            rw = extract_wei_eff(fns[wname], path)
+            check_header(rw, fns[wname], fns)
+        except Exception as e:  # noqa
+            rw = Routine(wname, path); rw.problems.append('%s: extractor raised %s: %s' % (wname, type(e).__name__, e))
+            rw.inner = None
+            rw.fields = dict({k: q('?') for k in WEI_EFF_FIELDS}, den='(.lit 0)', adjLit='99', tests='[]', guardKeys='[]', params='[]', defaults='[]')
+    else:
+        rw = Routine(wname, path); rw.problems.append('%s: %s' % (wname, err or 'function not found in ' + path)); rw.inner = None
+        rw.fields = dict({k: q('?') for k in WEI_EFF_FIELDS}, den='(.lit 0)', adjLit='99', tests='[]', guardKeys='[]', params='[]', defaults='[]')
+    prim_inv = fold_util_primitive(path, 'invert')
+    return {'module': 'BctVerif.Gen.CoresEff', 'file': 'CoresEff.lean', 'text': lean_eff(r, path, prim, rl, rw, prim_inv), 'sources': [path],
             'routines': {r.name: dict(getattr(r, 'counts', {}), line=r.line, recognised=not r.problems),
                          r.name + ' (local branch)': dict(getattr(rl, 'counts', {}), line=rl.line, recognised=not rl.problems),
-                         'binarize (called by efficiency_bin)': dict(line=prim.line, file=rel(prim.file), recognised=not prim.problems)},
-            'problems': list(r.problems) + list(rl.problems) + list(prim.problems)}
+                         wname + ' (global part)': dict(getattr(rw, 'counts', {}), line=rw.line, recognised=not rw.problems),
+                         'binarize (called by efficiency_bin)': dict(line=prim.line, file=rel(prim.file), recognised=not prim.problems),
+                         'invert (called by efficiency_wei)': dict(line=prim_inv.line, file=rel(prim_inv.file), recognised=not prim_inv.problems)},
+            'problems': list(r.problems) + list(rl.problems) + list(rw.problems) + list(prim.problems) + list(prim_inv.problems)}
 
 
 # ====================================================================== family 'walks'
